@@ -562,7 +562,55 @@ func (c *FnCtx) staticCall(fr *Frame, st *State, x *ssa.Call, callee *ssa.Functi
 		unsupported("recursive function %s needs a contract", callee)
 	}
 	res := c.inline(st, callee, args, fr.ghost)
+	if c.fc != nil && c.fc.EscapesValues && !fr.ghost && c.noObl == 0 {
+		// C05: a text computed from a Map value by any function other than escapeChars counts as unescaped
+		c.markRawDerived(args, res)
+	}
 	c.setResult(fr, x, res)
+}
+
+// valDependent: the term is computed from some interface value (data dependence; ite conditions do not count).
+func (c *FnCtx) valDependent(t *Term, memo map[int]bool) bool {
+	if v, ok := memo[t.id]; ok {
+		return v
+	}
+	memo[t.id] = false
+	r := t.sort == SVal || c.rawDerived[t.id]
+	if !r {
+		args := t.args
+		if t.kind == kApp && t.op == "ite" && len(args) == 3 {
+			args = args[1:]
+		}
+		for _, a := range args {
+			if c.valDependent(a, memo) {
+				r = true
+				break
+			}
+		}
+	}
+	memo[t.id] = r
+	return r
+}
+
+func (c *FnCtx) markRawDerived(args, res []*Term) {
+	memo := map[int]bool{}
+	dep := false
+	for _, a := range args {
+		if c.valDependent(a, memo) {
+			dep = true
+		}
+	}
+	if !dep {
+		return
+	}
+	if c.rawDerived == nil {
+		c.rawDerived = map[int]bool{}
+	}
+	for _, r := range res {
+		if r.sort == SString && r.kind != kLit {
+			c.rawDerived[r.id] = true
+		}
+	}
 }
 
 // callContract: modular call — assert requires, havoc modifies, assume ensures.
@@ -575,6 +623,11 @@ func (c *FnCtx) callContract(fr *Frame, st *State, x *ssa.Call, callee *ssa.Func
 		r := c.evalGhost(st, e.ld.GhostFunc(rq.Fn), args)
 		c.addObl(st, "pre", fmt.Sprintf("%s.req%d@call%d", fc.Name, i, ord), r, x.Pos(), rq.Raw)
 		c.assumeChecked(st, r)
+	}
+	// every function is verified under the package invariant: a caller that has written package variables must have
+	// re-established it before calling (the callee's contract says nothing about states that violate it)
+	if !c.eng.isGhostFn(callee) && !fr.ghost && c.noObl == 0 && c.wroteGlobals(fr, st) {
+		c.checkPkgInv(st, x.Pos(), fmt.Sprintf("call%d of %s", ord, fc.Name))
 	}
 	var olds []*Term
 	for _, o := range fc.Olds {
@@ -645,7 +698,92 @@ func (c *FnCtx) callContract(fr *Frame, st *State, x *ssa.Call, callee *ssa.Func
 	if fc.Trusted {
 		c.trusted["trusted contract (assumed, body not verified): "+fc.Name] = true
 	}
+	if callee.Name() == "escapeChars" && len(res) == 1 {
+		if c.escaped == nil {
+			c.escaped = map[int]bool{}
+		}
+		c.escaped[res[0].id] = true
+	}
 	return res
+}
+
+// escapeObligations (C05): w is a text about to be written to the output (or stored into the attribute list) by an
+// encoder whose contract says "escapes-values". Every component of w that is derived from an interface value - the
+// content of the Map - must be a result of escapeChars, or the text of a value that is not a string, unless
+// xmlEscapeChars is off on that path. Components that do not depend on any interface value (literals, element and
+// attribute names, indentation) are not values. Reads from the attribute list are covered at the store into it.
+func (c *FnCtx) escapeObligations(st *State, w *Term, pos token.Pos, what string) {
+	if c.fc == nil || !c.fc.EscapesValues || c.noObl > 0 {
+		return
+	}
+	ts := c.eng.ts
+	var flag *Term
+	if g, ok := c.eng.ld.SSA.Members["xmlEscapeChars"].(*ssa.Global); ok {
+		flag = c.getCell(st, c.eng.globalCell(g))
+	} else {
+		return
+	}
+	if c.fc.EscapeExempt != nil && c.curTopFrame != nil {
+		// texts that are not element or attribute values (comments, directives, processing instructions) are exempt
+		ex := c.evalGhost(st, c.eng.ld.GhostFunc(c.fc.EscapeExempt.Fn), c.currentParams(c.curTopFrame, st))
+		flag = ts.And(flag, ts.Not(ex))
+	}
+	dep := map[int]bool{}
+	depends := func(t *Term) bool { return c.valDependent(t, dep) }
+	n := 0
+	var comp func(t *Term, guard *Term)
+	comp = func(t *Term, guard *Term) {
+		switch {
+		case guard.IsFalse() || t.kind == kLit || c.escaped[t.id] || !depends(t):
+			return
+		case c.rawDerived[t.id]:
+			c.addObl(st, "escape", fmt.Sprintf("#%d %s", c.kindOrd["escape"], what), ts.Implies(guard, ts.Not(flag)), pos, "text computed from a Map value by a function other than escapeChars, written although XMLEscapeChars is on")
+			return
+		case t.kind == kApp && (t.op == "str.++" || t.op == "seq.++"):
+			for _, a := range t.args {
+				comp(a, guard)
+			}
+			return
+		case t.kind == kApp && t.op == "ite":
+			comp(t.args[1], ts.And(guard, t.args[0]))
+			comp(t.args[2], ts.And(guard, ts.Not(t.args[0])))
+			return
+		case (t.kind == kUF || t.kind == kVar) && strings.Contains(t.op, "xml.Marshal"):
+			// a non-basic value rendered by encoding/xml itself, which escapes what it writes
+			c.trusted["encoding/xml.Marshal / MarshalIndent escape the text they produce"] = true
+			return
+		case t.kind == kUF && strings.HasPrefix(t.op, "fmt.Sprint") && len(t.args) >= 1:
+			// the text of values: fine for numbers and booleans; a string must have been escaped before
+			var val func(e *Term, g *Term)
+			val = func(e *Term, g *Term) {
+				switch {
+				case g.IsFalse():
+				case e.sort.IsSeq() && e.kind == kApp && (e.op == "seq.++" || e.op == "seq.unit"):
+					for _, a := range e.args {
+						val(a, g)
+					}
+				case e.kind == kApp && e.op == "ite":
+					val(e.args[1], ts.And(g, e.args[0]))
+					val(e.args[2], ts.And(g, ts.Not(e.args[0])))
+				case e.kind == kApp && e.op == "VStr" && len(e.args) == 1:
+					comp(e.args[0], g)
+				case e.sort == SString:
+					comp(e, g)
+				case e.sort == SVal && e.kind != kLit:
+					c.addObl(st, "escape", fmt.Sprintf("#%d %s", c.kindOrd["escape"], what), ts.Implies(ts.And(g, flag), ts.And(ts.Not(ts.App("(_ is VStr)", SBool, e)), ts.Not(c.eng.tc.IsType(types.NewSlice(types.Universe.Lookup("byte").Type()), e)))), pos, "text of a Map value that may be a string formatted without escapeChars although XMLEscapeChars is on")
+				case depends(e):
+					c.addObl(st, "escape", fmt.Sprintf("#%d %s", c.kindOrd["escape"], what), ts.Implies(g, ts.Not(flag)), pos, "Map values formatted without escapeChars although XMLEscapeChars is on")
+				}
+			}
+			for _, a := range t.args[1:] {
+				val(a, guard)
+			}
+			return
+		}
+		n++
+		c.addObl(st, "escape", fmt.Sprintf("#%d %s", c.kindOrd["escape"], what), ts.Implies(guard, ts.Not(flag)), pos, "text of a Map value written without escapeChars although XMLEscapeChars is on")
+	}
+	comp(w, ts.Bool(true))
 }
 
 func (c *FnCtx) resolveModifies(fr *Frame, st *State, text string, args []*Term) modTarget {
